@@ -26,6 +26,19 @@ _CHK: Dict[Any, bool] = {}
 _BAL: Dict[str, bool] = {}
 _CRN: Dict[Any, Any] = {}
 
+# implicit-H mapped reactions whose verdict depends on tautomer enumeration of the reference
+# (mapping onto the other carboxylic oxygen): strict check False, tautomer-aware check True
+TAUT_PAIRS = [
+    ("[CH3:1][C:2](=[O:3])[OH:4].[CH3:5][CH2:6][OH:7]>>[CH3:1][C:2](=[O:3])[O:7][CH2:6][CH3:5].[OH2:4]",
+     "[CH3:1][C:2](=[O:3])[OH:4].[CH3:5][CH2:6][OH:7]>>[CH3:1][C:2](=[O:4])[O:7][CH2:6][CH3:5].[OH2:3]"),
+    ("[CH3:1][C:2](=[O:3])[OH:4].[CH3:5][OH:6]>>[CH3:1][C:2](=[O:3])[O:6][CH3:5].[OH2:4]",
+     "[CH3:1][C:2](=[O:3])[OH:4].[CH3:5][OH:6]>>[CH3:1][C:2](=[O:4])[O:6][CH3:5].[OH2:3]"),
+    ("[CH3:8][CH2:1][C:2](=[O:3])[OH:4].[CH3:5][OH:6]>>[CH3:8][CH2:1][C:2](=[O:3])[O:6][CH3:5].[OH2:4]",
+     "[CH3:8][CH2:1][C:2](=[O:3])[OH:4].[CH3:5][OH:6]>>[CH3:8][CH2:1][C:2](=[O:4])[O:6][CH3:5].[OH2:3]"),
+    ("[CH3:1][C:2](=[O:3])[OH:4].[CH3:5][NH2:6]>>[CH3:1][C:2](=[O:3])[NH:6][CH3:5].[OH2:4]",
+     "[CH3:1][C:2](=[O:3])[OH:4].[CH3:5][NH2:6]>>[CH3:1][C:2](=[O:4])[NH:6][CH3:5].[OH2:3]"),
+]
+
 CRN_SETUPS = [
     (["esterification", "ester_hydrolysis"], ["CC(=O)O", "CO", "CCO"]),
     (["aldol"], ["CC=O", "CCC=O"]),
@@ -78,10 +91,11 @@ def gen_op(rng, s) -> Dict[str, Any]:
         rows = []
         for _ in range(rng.randint(1, 10)):
             a = rng.randrange(n_rules)
-            kind = rng.choice(["same", "renum", "renum", "other", "swap"])
+            kind = rng.choice(["same", "renum", "renum", "other", "swap", "taut", "taut"])
             rows.append({"gt": a, "kind": kind, "k": rng.randrange(1 << 20), "other": rng.randrange(n_rules)})
-        return {"op": "validate", "s": s(), "rows": rows, "n_jobs": rng.choice([1, 2, 3, 4, 8]),
-                "method": rng.choice(["RC", "ITS"]), "as_df": rng.random() < 0.3}
+        return {"op": "validate", "s": s(), "rows": rows, "n_jobs": rng.choice([1, 1, 2, 3, 4, 8]),
+                "method": rng.choice(["RC", "ITS"]), "as_df": rng.random() < 0.3,
+                "ignore_tautomers": rng.random() < 0.5, "ignore_aromaticity": rng.random() < 0.2}
     if c < 0.8:
         rows = []
         for _ in range(rng.randint(1, 12)):
@@ -133,10 +147,13 @@ def _unbalance(rsmi: str, kind: str, k: int) -> str:
     return lhs + ">>" + ".".join(parts)
 
 
-def _serial_check(mapped: str, gt: str, method: str) -> bool:
-    key = (mapped, gt, method)
+def _serial_check(mapped: str, gt: str, method: str, ignore_taut: bool = True, ignore_arom: bool = False) -> Any:
+    key = (mapped, gt, method, ignore_taut, ignore_arom)
     if key not in _CHK:
-        _CHK[key] = bool(AAMValidator.smiles_check(mapped, gt, method, False))
+        if ignore_taut:
+            _CHK[key] = AAMValidator.smiles_check(mapped, gt, method, ignore_arom)
+        else:
+            _CHK[key] = AAMValidator.smiles_check_tautomer(mapped, gt, method, ignore_arom)
     return _CHK[key]
 
 
@@ -212,9 +229,14 @@ def _validate(op: Dict[str, Any], sim: Sim, world, pristine) -> None:
     C = _corpus()
     rn, rules = C["rule_names"], C["rules"]
     data = []
+    it = bool(op.get("ignore_tautomers", True))
+    ia = bool(op.get("ignore_aromaticity", False))
     for row in op["rows"]:
         gt = rules[rn[row["gt"] % len(rn)]]
-        if row["kind"] == "same":
+        if row["kind"] == "taut":
+            gt, m = TAUT_PAIRS[row["k"] % len(TAUT_PAIRS)]
+            sim.probe("validate_tautomer_sensitive_pair")
+        elif row["kind"] == "same":
             m = gt
         elif row["kind"] == "renum":
             m = _renumber(gt, row["k"])
@@ -223,15 +245,19 @@ def _validate(op: Dict[str, Any], sim: Sim, world, pristine) -> None:
         else:
             m = rules[rn[row["other"] % len(rn)]]
         data.append({"ground_truth": gt, "m1": m, "m2": _renumber(m, row["k"] + 1)})
+    with pristine:
+        want = {c: [_serial_check(d[c], d["ground_truth"], op["method"], it, ia) for d in data] for c in ("m1", "m2")}
+    if any(w is None for c in want for w in want[c]):
+        sim.event("validate", "skipped: reference is None (error path of smiles_check_tautomer)")
+        return
     arg: Any = data
     if op.get("as_df"):
         import pandas as pd
         arg = pd.DataFrame(data)
-    res = AAMValidator.validate_smiles(arg, "ground_truth", ["m1", "m2"], op["method"], False, op["n_jobs"], 0, True)
+    res = AAMValidator.validate_smiles(arg, "ground_truth", ["m1", "m2"], op["method"], ia, op["n_jobs"], 0, it)
     if op["n_jobs"] > 1:
         sim.probe("validate_parallel")
-    with pristine:
-        want = {c: [_serial_check(d[c], d["ground_truth"], op["method"]) for d in data] for c in ("m1", "m2")}
+    want = {c: [bool(x) for x in v] for c, v in want.items()}
     if [r.get("mapper") for r in res] != ["m1", "m2"]:
         raise Violation(PROP, "AAMValidator.validate_smiles", "parallel_differs_from_serial", "mapper order", {"got": [r.get("mapper") for r in res]})
     for r in res:
@@ -240,11 +266,12 @@ def _validate(op: Dict[str, Any], sim: Sim, world, pristine) -> None:
         if got != w:
             raise Violation(PROP, "AAMValidator.validate_smiles", "parallel_differs_from_serial",
                             "n_jobs>1" if op["n_jobs"] > 1 else "n_jobs=1",
-                            {"mapper": r["mapper"], "got": got, "serial": w, "rows": op["rows"], "method": op["method"]})
+                            {"mapper": r["mapper"], "got": got, "serial": w, "rows": op["rows"], "method": op["method"],
+                             "ignore_tautomers": it, "ignore_aromaticity": ia})
         acc = round(100 * (sum(w) / len(w)), 2) if w else 0.0
         if abs(float(r["accuracy"]) - acc) > 1e-9:
             raise Violation(PROP, "AAMValidator.validate_smiles", "accuracy_mismatch", "", {"got": r["accuracy"], "want": acc})
-    sim.state(("validate", op["method"], min(op["n_jobs"], 3), tuple(sorted(set(want["m1"])))))
+    sim.state(("validate", op["method"], min(op["n_jobs"], 3), it, tuple(sorted(set(want["m1"])))))
     sim.event("validate", {"n": len(data), "true": sum(want["m1"]), "jobs": op["n_jobs"]})
 
 
